@@ -31,6 +31,9 @@ pub enum Refusal {
     StoreFails,
     Slow,
     Duplicated,
+    /// the replica is a live member but does not serve the consistency service (it answers "unknown service"):
+    /// a node between `connect()` and `add_extension()`, or one that never installs the extension
+    NoService,
 }
 
 #[derive(Debug, Clone)]
@@ -98,7 +101,7 @@ impl Prop for C06 {
             if i != issuer && src.chance(1, 3) {
                 behaviour.insert(
                     i,
-                    *src.pick(&[Refusal::RequestDropped, Refusal::ReplyDropped, Refusal::StoreFails, Refusal::Slow, Refusal::Duplicated]),
+                    *src.pick(&[Refusal::RequestDropped, Refusal::ReplyDropped, Refusal::StoreFails, Refusal::Slow, Refusal::Duplicated, Refusal::NoService]),
                 );
             }
         }
@@ -136,8 +139,8 @@ impl Prop for C06 {
 
     fn rule(&self) -> &'static str {
         "1-6 real nodes in 1-3 data centres (storage latency 0-4 ms per node), generated issuer, all 8 consistency levels, put/put_many/del/del_many, a \
-         generated subset of replicas that drop the request, drop the reply, fail their storage write, answer slowly \
-         or get the message twice, preceded by 0-3 earlier selections (moves the selector cursors), optionally over \
+         generated subset of replicas that drop the request, drop the reply, fail their storage write, answer slowly, \
+         get the message twice or do not serve the consistency service at all, preceded by 0-3 earlier selections (moves the selector cursors), optionally over \
          pre-existing documents; oracle: Ok => read immediately, the issuer and at least the required number of \
          distinct other nodes (per data centre for Local/EachQuorum) hold the mutation or a newer stamp for each id; \
          ConsistencyFailure => reported responses == acknowledgements that came back, required == replicas asked, \
@@ -200,6 +203,12 @@ async fn run(case: &Case, net: e3::Net) -> Outcome {
                     n.per_dst.insert(a, Verdict::Duplicate);
                 },
                 Refusal::StoreFails => nodes[*i].store.inner.lock().fail_all = true,
+                Refusal::NoService => {
+                    use datacake_rpc::RpcService;
+                    nodes[*i].node.verif_remove_rpc_service(
+                        <datacake_eventual_consistency::verif::ConsistencyService<crate::store::ModelStore> as RpcService>::service_name(),
+                    );
+                },
             }
         }
     }
@@ -276,7 +285,7 @@ async fn run(case: &Case, net: e3::Net) -> Outcome {
                     let idx = nodes.iter().position(|n| n.addr == **a).unwrap();
                     !matches!(
                         case.behaviour.get(&idx),
-                        Some(Refusal::RequestDropped) | Some(Refusal::ReplyDropped) | Some(Refusal::StoreFails)
+                        Some(Refusal::RequestDropped) | Some(Refusal::ReplyDropped) | Some(Refusal::StoreFails) | Some(Refusal::NoService)
                     )
                 })
                 .count();
